@@ -464,6 +464,117 @@ def filter_table(chk, program, max_entries=2):
     chk.floor('filter_models', nmodels, 300)
     return consts, sf, cf, stages
 
+def filter_history(chk, program):
+    """FILTER-HIST: the verdict on a message is a function of the configuration and of THAT message (its number and its id), not of the messages decided
+    before it.  `_call_decode_function` is interpreted (absint) on the decoder its constructor builds, over short histories in which one PGN number
+    carries two definitions (as every proprietary / multi-definition PGN does): A B, B A, A B A with exclude=[id of B], include=[id of A], and the
+    reverse roles.  Each step's outcome is compared with the statement.  A function the interpreter cannot follow decides nothing here (the
+    tabulated guards of FILTER-TABLE still have to be evaluable)."""
+    from . import absint as A
+    from .wire import is_logger
+    mod = program.mod('decoder')
+    cls = program.cls('decoder', CLS)
+    methods = {n.name: n for n in cls.body if isinstance(n, (ast.FunctionDef, ast.AsyncFunctionDef))}
+    fn = methods.get('_call_decode_function')
+    init = methods.get('__init__')
+    if fn is None or init is None:
+        return
+    menv = A.ModuleEnv(mod.tree)
+    classes = {c: mod.classes[c] for c in mod.classes if c != CLS}
+    P, Q = 130820, 127250
+    IDS = {'A': 'fusionSourceName', 'B': 'fusionTrackInfo', 'C': 'vesselHeading'}
+    PG = {'A': P, 'B': P, 'C': Q}
+    def build(excl, incl):
+        def hook(it, call, env):
+            name = ast.unparse(call.func)
+            if name in ('datetime.now', 'datetime.utcnow', 'time.time', 'time.monotonic'):
+                return A.AInt(5)
+            if name == 'open':
+                return A.AObj(dump_file=True)
+            if name.startswith('os.'):
+                return A.AOpaque(name)
+            return NotImplemented
+        dec = A.AObj()
+        dec.attrs.update(A.class_constants(None, cls))
+        params = [a.arg for a in init.args.args][1:]
+        kw = {}
+        if 'exclude_pgns' in params: kw['exclude_pgns'] = _from_py(list(excl))
+        if 'include_pgns' in params: kw['include_pgns'] = _from_py(list(incl))
+        A.Interp(hook=hook, skip=is_logger, methods=methods, module=menv, classes=classes).call_function(init, [dec], kw)
+        return dec
+    def step(dec, which):
+        msg = A.AObj(PGN=A.AInt(PG[which]), id=A.AStr([('lit', IDS[which])]), fields=A.AList([]), which=which)
+        FUNC = A.AObj(decode_function=True)
+        def hook(it, call, env):
+            f = call.func
+            name = ast.unparse(f)
+            if name == 'globals().get' or (isinstance(f, ast.Attribute) and f.attr == 'get' and isinstance(f.value, ast.Call) and ast.unparse(f.value.func) in ('globals', 'vars')):
+                return FUNC
+            if isinstance(f, ast.Subscript) and isinstance(f.value, ast.Call) and ast.unparse(f.value.func) == 'globals':
+                return msg
+            if isinstance(f, ast.Name) and env.get(f.id) is FUNC:
+                return msg
+            if isinstance(f, ast.Attribute) and f.attr in ('add_data', 'apply_preferred_units'):
+                try:
+                    if it.expr(f.value, env) is msg:
+                        return None
+                except A.Unknown:
+                    pass
+            if isinstance(f, ast.Attribute) and f.attr == 'to_json':
+                return A.AStr([('lit', '{}')])
+            if name == 'IsoName':
+                return A.AObj(name=A.AInt(7), manufacturer_code=None)
+            return NotImplemented
+        it = A.Interp(hook=hook, skip=is_logger, methods=methods, module=menv, classes=classes)
+        args = []
+        for a in fn.args.args:
+            p = a.arg
+            if p == 'self': args.append(dec)
+            elif p == 'pgn': args.append(A.AInt(PG[which]))
+            elif p in ('src',): args.append(A.AInt(7))
+            elif p in ('dest',): args.append(A.AInt(255))
+            elif p == 'priority': args.append(A.AInt(3))
+            elif p == 'data': args.append(A.ABytes([('c', k) for k in (1, 2, 3, 4, 5, 6, 7, 8)]))
+            elif p == 'source_iso_name': args.append(None)
+            else: args.append(A.AOpaque(p))
+        r = it.call_function(fn, args)
+        return r is msg, r
+    configs = []
+    for role in ('A', 'B'):
+        other = 'B' if role == 'A' else 'A'
+        configs.append(('exclude', [IDS[role]], []))
+        configs.append(('exclude', [IDS[role].upper()], []))
+        configs.append(('include', [], [IDS[role]]))
+        configs.append(('include', [], [IDS[role], Q]))
+    hists = [('A', 'B'), ('B', 'A'), ('A', 'B', 'A'), ('B', 'A', 'B'), ('C', 'A', 'C', 'B'), ('A', 'A', 'B', 'B')]
+    n = 0
+    bad = []
+    try:
+        for mode, excl, incl in configs:
+            for h in hists:
+                dec = build(excl, incl)
+                for i, w in enumerate(h):
+                    got, r = step(dec, w)
+                    if r is not None and not got:
+                        raise A.Unknown('the value returned is not the decoded message')
+                    want = spec_permitted(PG[w], IDS[w], excl, incl)
+                    n += 1
+                    if got != want:
+                        bad.append((mode, excl or incl, h, i, w, got))
+                        break
+    except (A.Unknown, A.RaiseSignal, AttributeError, KeyError, TypeError) as u:
+        chk.unit('filter_history_not_interpretable', f"{type(u).__name__}: {u}"[:200])
+        return
+    chk.unit('filter_history_steps', n)
+    if bad:
+        mode, lst, h, i, w, got = bad[0]
+        names = {'A': f"{P}/{IDS['A']}", 'B': f"{P}/{IDS['B']}", 'C': f"{Q}/{IDS['C']}"}
+        chk.violation('FILTER-HIST', f"{mode}::{'after-other-definition-of-the-same-number' if i else 'first-message'}", file=DEC, line=fn.lineno, func='_call_decode_function',
+                      expected=f"{mode}_pgns={lst}: message {i + 1} of the history [{', '.join(names[x] for x in h)}] is {'returned' if not got else 'filtered out'} (the verdict depends on the message, not on what was decided before it)",
+                      found='filtered out' if not got else 'returned', detail=f"{len(bad)} of {len(configs) * len(hists)} histories disagree with the statement")
+    else:
+        chk.ok('FILTER-HIST', 'verdict-per-message::two-definitions-of-one-number', file=DEC, line=fn.lineno, nontrivial=True)
+
 def _cfgs(cfg):
     return '[' + ','.join(str(x) for x in cfg) + ']'
 
